@@ -340,3 +340,4 @@ prop("C02", run=lambda ctx: run_engine_generic(ctx))
 prop("C03", run=lambda ctx: run_engine_generic(ctx))
 prop("C04", run=lambda ctx: run_engine_generic(ctx))
 prop("C06", run=lambda ctx: run_engine_generic(ctx))
+prop("C08", run=lambda ctx: run_engine_generic(ctx, owners=["C08", "C11"]))
